@@ -2,7 +2,7 @@
 from .common import *
 from .manifest_data import NOTE_COMMON
 
-CASE_T = "ecfg * list ifile * wkind * Z * bool * option fault * bool * list bool * bytes"
+CASE_T = "ecfg * list ifile * wkind * Z * bool * option fault * bool * bytes * list bool * bytes"
 
 CLAIM = {
   "technique": "Coq model of the write path (writebuffer.go wrappers, bufio.Writer, strategy selection, header rewrite by Seek or WriteAt, stream encoder) over a scripted "
@@ -14,14 +14,17 @@ CLAIM = {
           "destination that already holds earlier sequences appends exactly its own sequence and changes nothing before it, the stream encoder (WriteMessage..., "
           "SequenceCompleted) yields the same bytes, and those bytes are the ones of Model/Encoder.encode_fit (the byte-exact model of C01/C02). Per run: the model and the Go "
           "encoder agree on error flags and destination bytes for sampled configurations, and the Go encoder's output is identical over all 4 kinds x 6 buffer sizes x "
-          "batch/stream x preset/zero data size for every generated input.",
+          "batch/stream x preset/zero data size for every generated input; a fresh encoder on a destination that already holds bytes appends exactly the same bytes for "
+          "plain, seekable and seekable+write-at destinations (also a theorem: C09_batch_appends_to_earlier_content, C09_stream_appends_to_earlier_content).",
   "note": NOTE_COMMON + " bufio.Writer is modelled from its documented algorithm (Go standard library, not translated); destinations are in-memory scripts (byte vector, cursor, "
           "operation counter), not files. Contexts/cancellation (EncodeWithContext) are not modelled."}
 
 
 def run(ctx):
-    ctx.cov["rule"] = ("random accepted chains of 1-2 files (factory-wide messages, developer fields, all encoder options) x 4 destination kinds x buffer sizes {-1,0,1,7,64,4096} x "
-                       "batch/stream x caller data size zero/preset; non-trivial = more than one Write reaches the destination; distinct by case text")
+    ctx.cov["rule"] = ("random accepted chains of 1-3 files (factory-wide messages, developer fields, all encoder options, 12- and 14-byte headers, timestamps continuing across "
+                       "the chain) x 4 destination kinds x buffer sizes {-1,0,1,7,64,4096} x batch/stream x caller data size zero/preset; every second input also on destinations "
+                       "already holding bytes (fresh encoder, cursor at the end) for plain / seekable / seekable+write-at kinds; non-trivial = more than one Write reaches the "
+                       "destination; distinct by case text")
     ctx.cov["checker_cmd"] = "coq/build.sh Props/C09.vo Run/RunC09.vo; coqc Props/C09.v; coqc cases_C09_*.v (vm_compute: check_case)"
     tr = ctx.prepare(parts=["factory", "dump-consts", "crc", "decoder-reset", "convmode"])
     ok, _ = ctx.coq(["Props/C09.vo", "Run/RunC09.vo"])
@@ -39,7 +42,7 @@ def run(ctx):
     h = ctx.harness(["c09", "--seed", ctx.seed, "--tier", ctx.tier], timeout=3000)
     if h.rc != 0:
         ctx.broken.append("harness c09 failed: " + getattr(h, "stderr", "")[-300:])
-    ctx.count(len(h.cases) + h.stats.get("oracle_configurations", 0), h.cases)
+    ctx.count(len(h.cases) + h.stats.get("oracle_configurations", 0) + h.stats.get("oracle_configurations_preexisting", 0), h.cases)
     found = False
     for f in h.fails[:3]:
         ctx.violation({"source": "direct Go oracle: destination content differs between writer kinds / buffer sizes / batch and stream", "failing": f})
